@@ -21,6 +21,11 @@ XS_FORMATS = ("excel", "sqlite")
 LIST_TABLES = ("pwl_cost", "group")        # list-valued cells: not representable in xlsx / SQLite cells
 
 
+# one specimen per Excel/SQLite mechanism found so far, present in every tier
+XS_EXTRA = [["cell", "trafo", 0, "name", "s_1"], ["cell", "switch", 1, "type", "s_True"], ["index", "bus", "named"],
+            ["cell", "bus", 2, "cust_f", "f_max"], ["cell", "bus", 1, "name", "s_None"]]
+
+
 def _targets_list_tables(dev):
     return (dev[0] == "cell" and dev[1] in LIST_TABLES) or dev[0] == "pwl"
 
@@ -66,7 +71,8 @@ def _x_json_inf(case, d, fmt):
 def _x_json_range(case, d, fmt):
     """DataFrame.to_json(double_precision=15) prints 15 significant digits; read_json(precise_float=True) rejects the text when
     strtod reports ERANGE: the rounded literal overflows (1.79769313486232e308) or is subnormal"""
-    if not (fmt.startswith("json") and d["clause"] == "roundtrip_raises" and d.get("a") == "ValueError" and "Range error" in d.get("b", "")):
+    if not (fmt.startswith("json") and d["clause"] == "roundtrip_raises" and d.get("a") in ("ValueError", "UserWarning")
+            and "Range error" in d.get("b", "")):     # from_json() re-raises the ValueError as UserWarning
         return False
     for dev in case["devs"]:
         if dev[0] in ("cell", "dfdata", "pwl") and dev[-1].startswith("f_"):
@@ -122,7 +128,28 @@ def _x_sqlite_dc_geo(case, d, fmt):
     return fmt == "sqlite" and d["where"].split("[")[0] in ("bus_dc.geo", "line_dc.geo") and _missing(d.get("_a")) and d.get("_b") == "null"
 
 
-EXPLAIN = {"json_inf_as_null": _x_json_inf, "json_double_range": _x_json_range, "int64na_via_float": _x_int64na,
+def _x_excel_text_inferred(case, d, fmt):
+    """from_excel reads with pandas' type inference: an object column whose non-empty text cells ALL look like numbers /
+    booleans ('1', '007', '1e5', 'inf', 'True', 'false') comes back as numbers / bools although the xlsx cells are text"""
+    a, b = d.get("_a"), d.get("_b")
+    if fmt != "excel" or d["clause"] != "cell_type" or not isinstance(a, str) or isinstance(b, str):
+        return False
+    if isinstance(b, (bool, np.bool_)):
+        return a.lower() in ("true", "false") and (a.lower() == "true") == bool(b)
+    try:
+        return float(a) == float(b)
+    except (TypeError, ValueError):
+        return False
+
+
+def _x_sqlite_named_index(case, d, fmt):
+    """to_sqlite -> DataFrame.to_sql names the index column after index.name; from_sqlite reads index_col='index'"""
+    return fmt == "sqlite" and d["clause"] == "roundtrip_raises" and d.get("a") == "KeyError" and "'index'" in d.get("b", "") \
+        and any(dev[0] == "index" and dev[2] == "named" for dev in case["devs"])
+
+
+EXPLAIN = {"excel_text_inferred": _x_excel_text_inferred, "sqlite_named_index": _x_sqlite_named_index,
+           "json_inf_as_null": _x_json_inf, "json_double_range": _x_json_range, "int64na_via_float": _x_int64na,
            "json_date_named_column": _x_date_named, "json_name_module": _x_name_module,
            "pickle_index_name_dropped": _x_pickle_index_name, "excel_na_strings": _x_excel_na_strings,
            "sqlite_dc_geo_null": _x_sqlite_dc_geo}
@@ -170,6 +197,11 @@ def run_case(case):
         return out
     except Exception as e:
         import traceback
+        if fmt in XS_FORMATS and any(d[0] == "cell" and not g_io.representable(fmt, gp.val(d[-1])) for d in case["devs"]):
+            # a value the storage format cannot hold made the writer / reader give up: outside the Excel/SQLite clause
+            out["outcome"] = "unrepresentable_value_refused"
+            out["sig"] = None
+            return out
         tb = traceback.extract_tb(e.__traceback__)
         site = next(("%s:%d" % (os.path.basename(f.filename), f.lineno) for f in reversed(tb) if "pandapower" in f.filename), "?")
         d = {"clause": "roundtrip_raises", "where": site, "a": type(e).__name__, "b": str(e)[:160]}
@@ -245,6 +277,7 @@ def gen_cases(tier):
     xs_menu = [d for d in (core_menu if quick else gp.menu("quick")) if _xs_ok(d)]
     if quick:
         xs_menu = xs_menu[::3]
+    xs_menu = xs_menu + [d for d in XS_EXTRA if d not in xs_menu]
     for fmt in XS_FORMATS:
         for d in xs_menu:
             cases.append({"fmt": fmt, "devs": [d]})
